@@ -6,26 +6,8 @@
    for byte-exact comparison, the Gallina HMAC-SHA1 / HMAC-SHA256 of C13. *)
 From Coq Require Import List ZArith NArith Bool.
 Import ListNotations.
-From OV Require Export C07.Chan.
-From OV Require Import C13.Sha.
+From OV Require Export C07.Chan C07.Prims.
 Open Scope Z_scope.
-
-(* ---------------- executable primitives ---------------- *)
-(* Adler-32 style checksum *)
-Fixpoint adler (s1 s2 : Z) (l : bytes) : Z * Z :=
-  match l with
-  | [] => (s1, s2)
-  | b :: t => let s1' := (s1 + b) mod 65521 in adler s1' ((s2 + s1') mod 65521) t
-  end.
-Definition checksum (l : bytes) : Z * Z := adler 1 0 l.
-(* an [n]-byte tag derived from the checksum *)
-Definition toy_tag (n : Z) (l : bytes) : bytes :=
-  let '(a, b) := checksum l in
-  take n ([a mod 256; a / 256; b mod 256; b / 256] ++ rep (n - 4) 0).
-
-Definition hmac_real (p : policy) (k d : bytes) : bytes :=
-  map Z.of_N ((if src_sym_hash p =? 1 then hmac_sha1 else hmac_sha256) (map Z.to_N k) (map Z.to_N d)).
-Definition toy_mac (p : policy) (k d : bytes) : bytes := toy_tag (src_sym_sig p) (k ++ d).
 
 (* key pair ids of the stand-ins carry the key size: id = 16 * size + index *)
 Definition key_size (k : Z) : Z := k / 16.
@@ -49,7 +31,6 @@ Definition toy_cert_key (c : bytes) : option (Z * Z) :=
   | a :: b :: c0 :: d :: _ => let k := rd32 a b c0 d in if 0 <? key_size k then Some (k, key_size k) else None
   | _ => None
   end.
-Definition ascii (l : bytes) : bool := forallb (fun b => b <? 128) l.
 
 Definition toy_prims (exact : bool) : prims :=
   {| p_mac := if exact then hmac_real else toy_mac;
